@@ -286,6 +286,54 @@ def gen_pool(rng, n):
     return out
 
 
+SWEEP_WINDOWS = [(0, 64), (2000, 2100), (4070, 4120), (8150, 8200), (16340, 16400), (32740, 32800), (65500, 65536)]
+
+
+def sweep_groups(windows, thin=1, cap=400000):
+    """payload sizes of the windows, value by value (or every thin-th value plus both ends), grouped so that one case
+    (one connection, many frames) carries at most `cap` bytes"""
+    for lo, hi in windows:
+        grp, tot = [], 0
+        for n in range(lo, hi + 1):
+            if thin > 1 and n not in (lo, hi) and (n - lo) % thin:
+                continue
+            if grp and tot + n > cap:
+                yield grp
+                grp, tot = [], 0
+            grp.append(n)
+            tot += n
+        if grp:
+            yield grp
+
+
+def gen_size_sweep(rng, thorough):
+    """frame payload sizes swept value by value around the powers of two / usual buffer-pool sizes: FrameStream.Write ->
+    WriteFrame over loopback TCP -> FrameStream.Read (stream mode) and WriteFrameToWriter -> ReadFrameFromReader (enc mode).
+    Every size goes through the Go-side predicate; the model comparison covers every size of the windows up to 8200 and, in
+    the quick tier, every 12th size (plus both ends) of the 16 K / 32 K / 64 K windows (all of them in the thorough tier):
+    the list model costs ~10 s per MB."""
+    out = []
+
+    def add(grp, nomodel):
+        pay = [rand_bytes(rng, n) for n in grp]
+        ops = [{"k": "w", "w": 0, "data": p.hex()} for p in pay] + [{"k": rng.choice(["c", "cw"]), "w": 0}]
+        out.append({"mode": "stream", "writers": [hx("sweep")], "reader": hx("sweep"), "reader_cw": False, "ops": ops,
+                    "caps": [], "dcap": rng.choice([32768, 65536, 70000]), "big": True, "sweep": [grp[0], grp[-1]], "nomodel": nomodel})
+        out.append({"mode": "enc", "frames": [{"tid": pad16(b"sweep").hex(), "ty": 1, "data": p.hex()} for p in pay],
+                    "cuts": rng.choice([[], [21, 1, 4096], [65536]]), "sweep": [grp[0], grp[-1]], "nomodel": nomodel})
+
+    small = [w for w in SWEEP_WINDOWS if w[1] <= 8200]
+    large = [w for w in SWEEP_WINDOWS if w[1] > 8200]
+    for grp in sweep_groups(small, cap=9000):    # model cost grows with frames x bytes per case: keep the cases small
+        add(grp, False)
+    for grp in sweep_groups(large):
+        add(grp, not thorough)
+    if not thorough:
+        for grp in sweep_groups(large, thin=12, cap=200000):
+            add(grp, False)
+    return out
+
+
 def gen_stream_big(rng, thorough):
     out = []
     sizes = [MAXF - 1, MAXF, MAXF + 1, 2 * MAXF - 1, 2 * MAXF, 2 * MAXF + 1, 200000]
@@ -540,7 +588,7 @@ def case_values(c, o):
             fr = [[[hb(f["tid"]), f["ty"], hb(f["data"])] for f in c["frames"]]]
         obs = [[1, hb(x["tid"]), x["ty"], hb(x["data"]), x["consumed"]] if x["ok"] else [0, x["eof"], x["consumed"]] for x in o["obs"]]
         return [[0, fr, hb(o["wire"]), list(c["cuts"]), obs]]
-    if o.get("skipped"):
+    if o.get("skipped") or c.get("nomodel"):
         return []
     if c["mode"] in ("conc", "fwd", "duplex", "halfclose", "pool"):
         return []
@@ -728,6 +776,7 @@ def run(ctx, only_cases=None):
         cases += gen_stream_tracker(rng, 600 if thorough else 80)
         cases += gen_dialog(rng, 1500 if thorough else 150)
         cases += gen_pool(rng, 200 if thorough else 24)
+        cases += [] if os.environ.get("C10_NOSWEEP") else gen_size_sweep(rng, thorough)
         cases += gen_stream_hostile(rng, 600 if thorough else 60)
         cases += gen_stream_big(rng, thorough)
         cases += gen_tid(rng, 400 if thorough else 40)
@@ -913,6 +962,7 @@ def run(ctx, only_cases=None):
         "impl_property_failures": nfail, "impl_property_failures_by_key": reported,
         "cases_skipped_after_hang_budget": n_skipped,
         "max_alloc_delta_bytes_per_ReadFrameFromReader_call": max_alloc,
+        "payload_sizes_swept_value_by_value": ["%d..%d" % w for w in SWEEP_WINDOWS],
         "type_bytes_seen_with_oversize_length_by_the_decoder": len(oversize_types),
         "input_distribution": dist, "generated_file_changed": gen_changed,
         "tree_variant_TunnelIDFromString": "hashes ids longer than 16 bytes (fixes/C10-wire-id-hash.diff or equivalent)" if hashing_tree
